@@ -34,7 +34,8 @@ func UniqueAppend(points []*Point3, addPoint *Point3, epsilon float64) []*Point3
 
 	// 追加点のユニークである場合はスライスに追加
 	if isUnique {
-		points = append(points, addPoint)
+		// 呼び出し元のスライスの余剰容量(共有メモリ)へ書き込まないよう、容量を長さに制限してから追加する
+		points = append(points[:len(points):len(points)], addPoint)
 	}
 
 	return points
